@@ -91,11 +91,14 @@ def eval_case(c):
         cosab = abs(np.vdot(a, b)) / (np.linalg.norm(a) * np.linalg.norm(b))
         obs['start_vector_cosine'] = float(cosab)
         degenerate = cosab > 1 - 1e-9
-    if dconv > 1e3 * c['rtol'] and not (degenerate and err > budget):
+    # The degeneracy makes the result ill-conditioned: it shows as an error of the same size as the disagreement between
+    # integrators.  An error far above that disagreement is NOT explained by it (e.g. a wrong ODE coefficient) and is reported.
+    explained_by_degeneracy = degenerate and err <= 30 * dconv
+    if dconv > 1e3 * c['rtol'] and not (explained_by_degeneracy and err > budget):
         return {'status': 'inconclusive', 'nontrivial': False, 'violations': [], 'obs': dict(obs, note='not converged: delta_conv > 1e3 rtol'), 'counters': cnt}
     cnt['decisive_comparisons'] += 1
     if err > budget:
-        key = 'kamata-dynamic-incompressible-degenerate-start' if degenerate else f'closed-form-mismatch-{fam}'
+        key = 'kamata-dynamic-incompressible-degenerate-start' if explained_by_degeneracy else f'closed-form-mismatch-{fam}'
         viol.append({'key': key, 'desc': f'{fam} l={l} {c["method"]} rtol={c["rtol"]:g} nd={c["nd"]}: solver k,h,l={[complex(x) for x in L]} closed form {[complex(x) for x in ex]}; max error {err:.3e} > budget {budget:.3e} (delta_conv {dconv:.2e}, eps_dyn {eps_dyn:.1e})',
                      'data': obs})
     return {'status': 'violated' if viol else 'held', 'nontrivial': True, 'violations': viol, 'obs': obs, 'counters': cnt}
